@@ -21,6 +21,9 @@ EXN = ["TraitError", "AttributeError", "DelegationError", "RecursionError"]
 TOK = {0: "x", 1: "y", 2: "a", 3: "b", 4: "r", 10: "p_", 11: "pre_", 12: "q_", 20: "parent", 21: "other"}
 
 
+BAD = "bad"
+
+
 def nm(tokens):
     return "".join(TOK[t] for t in tokens)
 
@@ -52,6 +55,8 @@ def run_case(case):
     def to_py(v):
         if isinstance(v, dict):
             return pool[v["obj"]]
+        if v == "bad":
+            return BAD          # one object: whether equal-but-distinct values count as a change is C02's business
         return v
 
     def canon(v):
@@ -69,25 +74,27 @@ def run_case(case):
             setattr(o, nm(tn), to_py(v))
     events = []
 
-    def recorder(i):
+    def recorder(i, tokmap):
         def rec(obj, name, old, new):
-            events.append([i, name, canon(new)])
+            events.append([i, tokmap.get(name, [99]), canon(new)])
         return rec
 
     names = []
     for i, (o, spec) in enumerate(zip(pool, case["objs"])):
         traits = case["classes"][spec["cls"]]["traits"]
         names.append([(nm(tn), sp[0]) for tn, sp in traits])
-        r = recorder(i)
+        r = recorder(i, {nm(tn): list(tn) for tn, sp in traits})
         for tn, sp in traits:
             if sp[0] != "Link":
                 o.on_trait_change(r, nm(tn))
     out = []
-    for op in case["ops"]:
+    for op in [["Init"]] + case["ops"]:
         del events[:]
         res = "Done"
         try:
-            if op[0] == "Set":
+            if op[0] == "Init":
+                pass
+            elif op[0] == "Set":
                 setattr(pool[op[1]], nm(op[2]), to_py(op[3]))
             elif op[0] == "Del":
                 delattr(pool[op[1]], nm(op[2]))
